@@ -20,6 +20,7 @@ import (
 	"strings"
 	"testing"
 
+	"github.com/markusressel/fan2go/internal"
 	"github.com/markusressel/fan2go/internal/configuration"
 	"github.com/markusressel/fan2go/internal/curves"
 	"github.com/markusressel/fan2go/internal/fans"
@@ -186,6 +187,13 @@ func genC11(t *rapid.T) c11Scenario {
 			// a cycle of length 2..8 over function curves (existing ones are re-used, missing ones added)
 			l := rapid.IntRange(2, 8).Draw(t, "cycleLen")
 			var ring []*c11Curve
+			// function curves outside the cycle that lead into it, declared before every member of the
+			// cycle (a chain of up to two): a walk started there reaches the cycle without closing on itself
+			nEntry := rapid.SampledFrom([]int{0, 0, 1, 1, 2}).Draw(t, "ringEntries")
+			entryBase := len(sc.Curves)
+			for i := 0; i < nEntry; i++ {
+				sc.Curves = append(sc.Curves, c11Curve{Id: fmt.Sprintf("entry%d_%d", d, i), Kinds: []string{"function"}, FnType: rapid.SampledFrom(fnAll).Draw(t, "entryFn")})
+			}
 			base := len(sc.Curves)
 			for i := 0; i < l; i++ {
 				sc.Curves = append(sc.Curves, c11Curve{Id: fmt.Sprintf("ring%d_%d", d, i), Kinds: []string{"function"}, FnType: rapid.SampledFrom(fnAll).Draw(t, "ringFn")})
@@ -199,9 +207,25 @@ func genC11(t *rapid.T) c11Scenario {
 					ring[i].Members = append(ring[i].Members, sc.Curves[0].Id)
 				}
 			}
-			if rapid.Bool().Draw(t, "ringUsed") {
-				sc.Fans[0].Curve = ring[0].Id // else reachable only through unused curves
+			for i := 0; i < nEntry; i++ {
+				e := &sc.Curves[entryBase+i]
+				if i+1 < nEntry {
+					e.Members = append(e.Members, sc.Curves[entryBase+i+1].Id)
+				} else {
+					e.Members = append(e.Members, ring[rapid.IntRange(0, l-1).Draw(t, "entryInto")].Id)
+				}
+				if rapid.Bool().Draw(t, "entryLeaf") {
+					e.Members = append(e.Members, sc.Curves[0].Id)
+				}
 			}
+			switch rapid.IntRange(0, 2).Draw(t, "ringUsed") {
+			case 0:
+				sc.Fans[0].Curve = ring[0].Id
+			case 1:
+				if nEntry > 0 {
+					sc.Fans[0].Curve = sc.Curves[entryBase].Id
+				}
+			} // else reachable only through unused curves
 		case "badFnType":
 			fn := c11PickFn(t, &sc)
 			fn.FnType = rapid.SampledFrom([]string{"median", "avg", "SUM", ""}).Draw(t, "badType")
@@ -214,6 +238,46 @@ func genC11(t *rapid.T) c11Scenario {
 		sc.CurveOrder = rapid.Permutation(seq(0, len(sc.Curves)-1)).Draw(t, "curveOrder")
 	}
 	return sc
+}
+
+var c11Nonce int
+
+// c11Renamed returns a copy of the scenario in which every id carries a suffix unique to this case of
+// this process: fan2go's sensor / curve / fan registries are process-wide and cannot be emptied, and a
+// left-over "c_1" of an earlier case must not stand in for a curve that this case failed to register.
+func c11Renamed(sc c11Scenario) c11Scenario {
+	c11Nonce++
+	sfx := fmt.Sprintf("_k%d", c11Nonce)
+	ren := func(id string) string {
+		if id == "" {
+			return id
+		}
+		return id + sfx
+	}
+	out := sc
+	out.Sensors = nil
+	for _, x := range sc.Sensors {
+		x.Id = ren(x.Id)
+		out.Sensors = append(out.Sensors, x)
+	}
+	out.Curves = nil
+	for _, c := range sc.Curves {
+		c.Id = ren(c.Id)
+		c.Sensor = ren(c.Sensor)
+		var ms []string
+		for _, m := range c.Members {
+			ms = append(ms, ren(m))
+		}
+		c.Members = ms
+		out.Curves = append(out.Curves, c)
+	}
+	out.Fans = nil
+	for _, f := range sc.Fans {
+		f.Id = ren(f.Id)
+		f.Curve = ren(f.Curve)
+		out.Fans = append(out.Fans, f)
+	}
+	return out
 }
 
 func c11PickFn(t *rapid.T, sc *c11Scenario) *c11Curve {
@@ -542,6 +606,68 @@ func c11Validate(path string) (accepted bool, msg string) {
 }
 
 // c11Instantiate builds everything with the real constructors and evaluates every curve.
+// c11FakeHwmon creates the devices the generated hwmon entries name (platform coretemp, index 1;
+// platform nct6798, fan index 2 / rpmChannel 1, pwmChannel 1..5).
+func c11FakeHwmon(dir string) string {
+	tree := filepath.Join(dir, "hwmon")
+	nct := filepath.Join(tree, "hwmon0")
+	_ = os.MkdirAll(nct, 0755)
+	_ = os.WriteFile(filepath.Join(nct, "name"), []byte("nct6798\n"), 0644)
+	_ = os.WriteFile(filepath.Join(nct, "verif_bus"), []byte("1 0 0x290\n"), 0644)
+	for ch := 1; ch <= 5; ch++ {
+		_ = os.WriteFile(filepath.Join(nct, fmt.Sprintf("fan%d_input", ch)), []byte("1200\n"), 0644)
+		_ = os.WriteFile(filepath.Join(nct, fmt.Sprintf("pwm%d", ch)), []byte("128\n"), 0644)
+		_ = os.WriteFile(filepath.Join(nct, fmt.Sprintf("pwm%d_enable", ch)), []byte("2\n"), 0644)
+	}
+	ct := filepath.Join(tree, "hwmon1")
+	_ = os.MkdirAll(ct, 0755)
+	_ = os.WriteFile(filepath.Join(ct, "name"), []byte("coretemp\n"), 0644)
+	_ = os.WriteFile(filepath.Join(ct, "verif_bus"), []byte("1 0 0x0\n"), 0644)
+	_ = os.WriteFile(filepath.Join(ct, "temp1_input"), []byte("45000\n"), 0644)
+	return tree
+}
+
+// c11Initialize takes the accepted configuration through the daemon's own start-up path
+// (internal.InitializeObjects: sensors, curves, fans) and evaluates the curve of every fan.
+func c11Initialize(dir string) (problems []sim.Violation) {
+	cfg := configuration.CurrentConfig
+	for _, sc := range cfg.Sensors {
+		if sc.File != nil {
+			_ = os.WriteFile(sc.File.Path, []byte("45000\n"), 0644)
+		}
+	}
+	for _, fc := range cfg.Fans {
+		if fc.File != nil {
+			_ = os.WriteFile(fc.File.Path, []byte("128\n"), 0644)
+			if fc.File.RpmPath != "" {
+				_ = os.WriteFile(fc.File.RpmPath, []byte("1200\n"), 0644)
+			}
+		}
+	}
+	os.Setenv("FAN2GO_VERIF_HWMON_ROOT", c11FakeHwmon(dir))
+	freshPrometheus()
+	fanMap, err := internal.InitializeObjects()
+	if err != nil {
+		return []sim.Violation{{Key: "accepted-but-not-initializable", Msg: "internal.InitializeObjects: " + err.Error()}}
+	}
+	for _, f := range fanMap {
+		func() {
+			defer func() {
+				if r := recover(); r != nil {
+					problems = append(problems, sim.Violation{Key: "accepted-but-fan-curve-panics", Msg: fmt.Sprintf("fan %s: evaluating its curve %s after the daemon's own initialisation panicked: %v", f.GetId(), f.GetCurveId(), r)})
+				}
+			}()
+			c, ok := curves.GetSpeedCurve(f.GetCurveId())
+			if !ok || c == nil {
+				problems = append(problems, sim.Violation{Key: "accepted-but-fan-curve-missing", Msg: fmt.Sprintf("fan %s: its curve %s is not registered after the daemon's own initialisation", f.GetId(), f.GetCurveId())})
+				return
+			}
+			_, _ = c.Evaluate()
+		}()
+	}
+	return
+}
+
 func c11Instantiate(dir string) (problems []sim.Violation) {
 	cfg := configuration.CurrentConfig
 	var sens []sensors.Sensor
@@ -615,7 +741,8 @@ func runC11(t *testing.T, sc c11Scenario) verdict {
 		return verdict{vs: []sim.Violation{{Key: "harness", Msg: err.Error()}}}
 	}
 	defer os.RemoveAll(dir)
-	text := renderC11(&sc, dir)
+	rsc := c11Renamed(sc)
+	text := renderC11(&rsc, dir)
 	path := filepath.Join(dir, "fan2go.yaml")
 	_ = os.WriteFile(path, []byte(text), 0644)
 	accepted, msg := c11Validate(path)
@@ -653,7 +780,10 @@ func runC11(t *testing.T, sc c11Scenario) verdict {
 	case accepted && len(defects) > 0:
 		vs = append(vs, sim.Violation{Key: "structurally-broken-config-accepted", Msg: fmt.Sprintf("validator accepted a configuration with: %v", defects)})
 	case accepted:
-		vs = append(vs, c11Instantiate(dir)...)
+		vs = append(vs, c11Initialize(dir)...)
+		if len(vs) == 0 {
+			vs = append(vs, c11Instantiate(dir)...)
+		}
 	case !accepted && len(defects) == 0 && !undocumented:
 		vs = append(vs, sim.Violation{Key: "documented-config-rejected", Msg: fmt.Sprintf("configuration built only from documented forms was rejected: %s\n%s", msg, text)})
 	}
